@@ -127,6 +127,7 @@ func refSize(v any) int {
 const (
 	scopeSame = 0 // the kid is applied to the node's own input
 	scopeEach = 1 // the kid is applied to each member of the node's input
+	scopeRec  = 2 // the kid is applied to the input and every descendant (paths(f))
 )
 
 type Q struct {
@@ -220,6 +221,9 @@ func (q *Q) subs(prefix, src string, out *[]sub) {
 	case "hof":
 		if q.Scope == scopeEach {
 			p := prefix + ".[] | "
+			q.Kids[0].subs(p, p+".", out)
+		} else if q.Scope == scopeRec {
+			p := prefix + ".. | "
 			q.Kids[0].subs(p, p+".", out)
 		} else {
 			q.Kids[0].subs(prefix, src, out)
@@ -644,7 +648,7 @@ func init() {
 
 	arrTmpls = []tmpl{
 		safe(S("has-bounds", 4, "length as $l | [has(0), has($l - 1), has($l), has(-1), has($l + 1)]", TArr)),
-		safeDirect(S("index-bounds", 4, "length as $l | [.[0], .[$l - 1], .[$l], .[-$l], .[-$l - 1], .[-1]]", TArr)),
+		safeDirect(S("index-bounds", 4, `if type == "array" then (length as $l | [.[0], .[$l - 1], .[$l], .[-$l], .[-$l - 1], .[-1]]) else "na" end`, TArr)),
 		safeDirect(S("slice-bounds", 4, "length as $l | [.[:$l], .[$l:], .[$l - 1:], .[1:$l], .[-$l:], .[:-$l], .[:-1], .[1:], .[-1:]]", TArr)),
 		safe(S("keys-vs-length", 2, "[keys == [range(length)], ([.[]] | length) == length, (to_entries | length) == length]", TArr)),
 		safe(S("length", 3, "length", TNum)),
@@ -1003,7 +1007,7 @@ func (g *qgen) gen(vi vinfo, depth int, safeOnly bool) (*Q, vinfo) {
 				out = typed(TAny)
 			case "paths":
 				q.Text = "[paths(%s)]"
-				q.Scope = scopeSame // paths applies f to every descendant; localisation tests it on the value itself
+				q.Scope = scopeRec
 			}
 			return q, out
 		}
